@@ -37,3 +37,36 @@ def package_wide(ctx):
     caches = {m: c for m, c in caches.items() if c}
     ctx.note("dict caches in the package (each checked by the memo-key rule of the property that owns its module): " + str(caches))
     ctx.count("sweep_dict_caches", sum(len(c) for c in caches.values()))
+    # idiom sweeps over every module (the property checks apply them to their own modules only)
+    stale = []
+    for mi in ix.modules.values():
+        if "_legacy" in mi.name:
+            continue
+        for fi in mi.functions.values():
+            if isinstance(fi.node, ast.Lambda):
+                continue
+            saved = {}
+            for s in getattr(fi.node, "body", []):
+                if isinstance(s, ast.Assign) and isinstance(s.targets[0], ast.Name) and isinstance(s.value, ast.Attribute) and s.value.attr == "_shape" and isinstance(s.value.value, ast.Name):
+                    saved[s.targets[0].id] = (s.value.value.id, s.lineno)
+            for var, (obj, line) in saved.items():
+                rav = [c for c in ast.walk(fi.node) if isinstance(c, ast.Call) and u(c.func) == f"{obj}.ravel" and c.lineno > line]
+                use = [x for x in ast.walk(fi.node) if isinstance(x, ast.Name) and x.id == var and isinstance(x.ctx, ast.Load) and rav and x.lineno >= min(r.lineno for r in rav)]
+                if rav and use:
+                    stale.append(f"{mi.relpath}:{line} {fi.qualname}")
+    ctx.count("sweep_stale_shape_sites", len(stale))
+    if stale:
+        ctx.note("package-wide stale-shape observations (shape captured before ravel() and used after it): " + "; ".join(stale))
+    try:
+        from .rules.c17 import slot_memo_sites
+        from .rules.c14 import permute_twice_sites
+        sm, _ = slot_memo_sites(ix, mods)
+        pt, _ = permute_twice_sites(ix, mods)
+        ctx.count("sweep_slot_memos_reading_a_parameter", len(sm))
+        ctx.count("sweep_permute_twice_sites", len(pt))
+        if sm:
+            ctx.note("single-slot memos that read a parameter: " + "; ".join(f"{fi.module.relpath} {fi.qualname}.{a}" for fi, a, _, _ in sm))
+        if pt:
+            ctx.note("permute-twice sites: " + "; ".join(f"{fi.module.relpath} {fi.qualname}" for fi, _, _, _ in pt))
+    except Exception as e:      # an observation must never break a verdict
+        ctx.note(f"idiom sweeps skipped: {type(e).__name__}: {e}")
